@@ -42,6 +42,8 @@ pub struct Case {
     pub start: Option<(RelField, String, Layout)>,
     /// the start text has white space in front of ':archqual' (accepted by the reader, not part of the stated grammar)
     pub liberal: bool,
+    /// the history starts from the live object returned by Relations::wrap_and_sort() on the parsed start field
+    pub normalised_first: bool,
     pub ops: Vec<EOp>,
 }
 
@@ -185,12 +187,47 @@ pub fn apply_model(m: &mut Vec<Vec<Rel>>, op: &EOp) -> bool {
     true
 }
 
-fn apply_live(root: &mut ll::Relations, op: &EOp) -> CheckResult {
-    let entry = |root: &ll::Relations, i: usize| root.get_entry(i).ok_or_else(|| Failure { assertion: "handle/get-entry".into(), message: format!("get_entry({}) is None on {:?}", i, root.to_string()) });
-    let relation = |root: &ll::Relations, i: usize, j: usize| -> Result<ll::Relation, Failure> {
-        let e = root.get_entry(i).ok_or_else(|| Failure { assertion: "handle/get-entry".into(), message: format!("get_entry({}) is None on {:?}", i, root.to_string()) })?;
-        e.get_relation(j).ok_or_else(|| Failure { assertion: "handle/get-relation".into(), message: format!("get_relation({}) of entry {} is None on {:?}", j, i, root.to_string()) })
+/// `kept`: the entry handle used by the previous step, if that step went through an entry handle. Consecutive edits of the same
+/// entry reuse it (a caller holding `let mut e = relations.get_entry(i)` and editing through `e` repeatedly); any field-level
+/// operation drops it.
+fn apply_live(root: &mut ll::Relations, op: &EOp, kept: &mut Option<(usize, ll::Entry)>) -> CheckResult {
+    let target = match op {
+        EOp::EntryPush(i, ..) | EOp::EntryReplace(i, ..) | EOp::EntryRemoveRelation(i, _) | EOp::RelRemove(i, _) | EOp::SetVersion(i, ..) | EOp::DropConstraint(i, _) | EOp::SetArchqual(i, ..) | EOp::SetArchitectures(i, ..) | EOp::AddProfile(i, ..) => Some(*i),
+        _ => None,
     };
+    if target.is_none() || kept.as_ref().map(|k| Some(k.0) != target).unwrap_or(false) {
+        *kept = None;
+    }
+    if let (Some(i), None) = (target, kept.as_ref()) {
+        let e = root.get_entry(i).ok_or_else(|| Failure { assertion: "handle/get-entry".into(), message: format!("get_entry({}) is None on {:?}", i, root.to_string()) })?;
+        *kept = Some((i, e));
+    }
+    if target.is_some() {
+        let e: &mut ll::Entry = &mut kept.as_mut().unwrap().1;
+        let relation = |e: &ll::Entry, i: usize, j: usize| -> Result<ll::Relation, Failure> {
+            e.get_relation(j).ok_or_else(|| Failure { assertion: "handle/get-relation".into(), message: format!("get_relation({}) of entry {} is None ({:?})", j, i, e.to_string()) })
+        };
+        match op {
+            EOp::EntryPush(_, r, how) => e.push(build_relation(r, *how)?),
+            EOp::EntryReplace(_, j, r, how) => e.replace(*j, build_relation(r, *how)?),
+            EOp::EntryRemoveRelation(_, j) => {
+                e.remove_relation(*j);
+            }
+            EOp::RelRemove(i, j) => relation(e, *i, *j)?.remove(),
+            EOp::SetVersion(i, j, v) => relation(e, *i, *j)?.set_version(v.as_ref().map(|(op, s)| (vc_of(*op), debversion::Version::from_str(s).expect("valid version")))),
+            EOp::DropConstraint(i, j) => {
+                relation(e, *i, *j)?.drop_constraint();
+            }
+            EOp::SetArchqual(i, j, q) => relation(e, *i, *j)?.set_archqual(q),
+            EOp::SetArchitectures(i, j, a) => {
+                let strs: Vec<String> = a.iter().map(|(n, s)| format!("{}{}", if *n { "!" } else { "" }, s)).collect();
+                relation(e, *i, *j)?.set_architectures(strs.iter().map(|s| s.as_str()))
+            }
+            EOp::AddProfile(i, j, g) => relation(e, *i, *j)?.add_profile(&to_bp(g)),
+            _ => unreachable!(),
+        }
+        return Ok(());
+    }
     match op {
         EOp::Push(e, how) => root.push(build_entry(e, *how)?),
         EOp::Insert(i, e, how) => root.insert(*i, build_entry(e, *how)?),
@@ -198,23 +235,8 @@ fn apply_live(root: &mut ll::Relations, op: &EOp) -> CheckResult {
         EOp::RemoveEntry(i) => {
             root.remove_entry(*i);
         }
-        EOp::EntryRemove(i) => entry(root, *i)?.remove(),
-        EOp::EntryPush(i, r, how) => entry(root, *i)?.push(build_relation(r, *how)?),
-        EOp::EntryReplace(i, j, r, how) => entry(root, *i)?.replace(*j, build_relation(r, *how)?),
-        EOp::EntryRemoveRelation(i, j) => {
-            entry(root, *i)?.remove_relation(*j);
-        }
-        EOp::RelRemove(i, j) => relation(root, *i, *j)?.remove(),
-        EOp::SetVersion(i, j, v) => relation(root, *i, *j)?.set_version(v.as_ref().map(|(op, s)| (vc_of(*op), debversion::Version::from_str(s).expect("valid version")))),
-        EOp::DropConstraint(i, j) => {
-            relation(root, *i, *j)?.drop_constraint();
-        }
-        EOp::SetArchqual(i, j, q) => relation(root, *i, *j)?.set_archqual(q),
-        EOp::SetArchitectures(i, j, a) => {
-            let strs: Vec<String> = a.iter().map(|(n, s)| format!("{}{}", if *n { "!" } else { "" }, s)).collect();
-            relation(root, *i, *j)?.set_architectures(strs.iter().map(|s| s.as_str()))
-        }
-        EOp::AddProfile(i, j, g) => relation(root, *i, *j)?.add_profile(&to_bp(g)),
+        EOp::EntryRemove(i) => root.get_entry(*i).ok_or_else(|| Failure { assertion: "handle/get-entry".into(), message: format!("get_entry({}) is None on {:?}", i, root.to_string()) })?.remove(),
+        _ => unreachable!(),
     }
     Ok(())
 }
@@ -249,9 +271,18 @@ pub fn run(case: &Case) -> CheckResult {
                 }
             }
             ensure!(errs.is_empty(), "start-parses", "well-formed start field {:?} has errors {:?}", text, errs);
-            (r, f.entries(), f.substvars())
+            if case.normalised_first {
+                // the start model is what the live normalised field reports (that normalising keeps the meaning is C13's business)
+                let w = r.wrap_and_sort();
+                let m = lossless_entries(&w)?;
+                let sv: Vec<String> = w.substvars().collect();
+                (w, m, sv)
+            } else {
+                (r, f.entries(), f.substvars())
+            }
         }
     };
+    let mut kept: Option<(usize, ll::Entry)> = None;
     for (step, op) in case.ops.iter().enumerate() {
         let before = root.to_string();
         let before_entries: Vec<String> = root.entries().map(|e| e.to_string().trim().to_string()).collect();
@@ -260,8 +291,12 @@ pub fn run(case: &Case) -> CheckResult {
         if !apply_model(&mut m2, op) {
             continue; // index precondition not met (the generator only emits valid indices; shrinking may not)
         }
-        apply_live(&mut root, op)?;
+        apply_live(&mut root, op, &mut kept)?;
         let removed_entry = m2.len() < old_len;
+        if removed_entry {
+            // the entry the kept handle pointed to may be gone, and indices have shifted
+            kept = None;
+        }
         model = m2;
         let t = root.to_string();
         let (re, errs) = ll::Relations::parse_relaxed(&t, true);
@@ -423,7 +458,7 @@ impl PropImpl for C11 {
          an empty entry/substvar/newline. Distinct by hash of (start text, history).".into()
     }
     fn expected_labels(&self) -> Vec<&'static str> {
-        vec!["op:push", "op:insert", "op:replace", "op:remove_entry", "op:Entry::remove", "op:Entry::push", "op:Entry::replace", "op:Entry::remove_relation", "op:Relation::remove", "op:set_version(Some)", "op:set_version(None)", "op:drop_constraint", "op:set_archqual", "op:set_architectures", "op:add_profile", "operand:parsed", "operand:constructed", "operand:builder", "operand:parsed-with-surrounding-whitespace", "start:empty-field", "start:has-substvar", "start:has-empty-entry", "start:has-newline", "start:white-space-before-archqual"]
+        vec!["op:push", "op:insert", "op:replace", "op:remove_entry", "op:Entry::remove", "op:Entry::push", "op:Entry::replace", "op:Entry::remove_relation", "op:Relation::remove", "op:set_version(Some)", "op:set_version(None)", "op:drop_constraint", "op:set_archqual", "op:set_architectures", "op:add_profile", "operand:parsed", "operand:constructed", "operand:builder", "operand:parsed-with-surrounding-whitespace", "start:empty-field", "start:has-substvar", "start:has-empty-entry", "start:has-newline", "start:white-space-before-archqual", "start:result-of-wrap-and-sort"]
     }
     fn budget(&self, tier: Tier) -> Budget {
         Budget { cases_per_lane: if tier == Tier::Quick { 30000 } else { 120000 }, tape_max: 600, cpu_s: 10 }
@@ -455,7 +490,7 @@ impl PropImpl for C11 {
             apply_model(&mut m, &avail[k]);
             ops.push(avail[k].clone());
         }
-        Case { start: if li == 0 { None } else { Some((f, text.to_string(), Layout::L1)) }, ops, liberal: false }
+        Case { start: if li == 0 { None } else { Some((f, text.to_string(), Layout::L1)) }, ops, liberal: false, normalised_first: false }
     }
     fn decode(&self, _ctx: &mut Ctx, t: &mut Tape) -> Case {
         let start = if t.chance(1, 5) {
@@ -489,14 +524,20 @@ impl PropImpl for C11 {
             }
             s => s,
         };
+        let normalised_first = !liberal && start.is_some() && t.chance(1, 8);
         let mut m = start.as_ref().map(|s| s.0.entries()).unwrap_or_default();
+        if normalised_first {
+            // indices of the history refer to the normalised field: sorted entries (by the reference order used in C13's
+            // oracle the exact order is not needed here - operations only need valid indices)
+            m.retain(|e| !e.is_empty());
+        }
         let mut ops = vec![];
         while t.more(ops.len(), 1, 10, 3, 4) {
             let op = gen_op(t, &m);
             apply_model(&mut m, &op);
             ops.push(op);
         }
-        Case { start, ops, liberal }
+        Case { start, ops, liberal, normalised_first }
     }
     fn classify(&self, ctx: &mut Ctx, case: &Case) {
         let st = case.start.as_ref().map(|s| s.1.clone()).unwrap_or_default();
@@ -507,6 +548,7 @@ impl PropImpl for C11 {
         ctx.label_if(f.has_empty(), "start:has-empty-entry");
         ctx.label_if(st.contains('\n'), "start:has-newline");
         ctx.label_if(case.liberal, "start:white-space-before-archqual");
+        ctx.label_if(case.normalised_first, "start:result-of-wrap-and-sort");
         let mut m = f.entries();
         let mut changing = 0;
         let mut edge = false;
